@@ -251,8 +251,10 @@ class Repetition:
 
             new_match_set: MatchSet = set()
             for match in last_match_set:
-                g = self.element.lparse(source, match.start)
                 try:  # noqa: SIM105
+                    # the call itself belongs inside the try: Prose.lparse is not a
+                    # generator and raises ParseError as soon as it is called.
+                    g = self.element.lparse(source, match.start)
                     new_match_set.update(
                         [Match(match.nodes + m.nodes, m.start) for m in g]
                     )
